@@ -200,7 +200,9 @@ func (m *Machine) panicViolationLabel(label, msg string) {
 		return
 	}
 	if !m.ensureModel() {
-		m.ex.addUnknownObligation(label)
+		if !m.lastUnsat {
+			m.ex.addUnknownObligation(label)
+		}
 		return
 	}
 	m.ex.noteObligation(true, false)
